@@ -714,6 +714,7 @@ static int map_rfpos_to_apos(ESL_MSA *msa, ESL_ALPHABET *abc, char *errbuf, int 
       }
   }
   /* build map */
+  if (rflen == 0) ESL_FAIL(eslEINVAL, errbuf, "#=GC RF annotation has no nongap (consensus) columns");
   ESL_ALLOC(i_am_rf, sizeof(int) * msa->alen);
   ESL_ALLOC(rf2a_map, sizeof(int) * rflen);
   for(apos = 0; apos < msa->alen; apos++) {
